@@ -131,6 +131,9 @@ fn base_config(r: &mut Rng, id: &str) -> SimConfig {
             }
         }
     }
+    if r.chance(1, 12) {
+        cfg.all_secure = true;
+    }
     cfg
 }
 
@@ -220,7 +223,7 @@ impl Check for StepCheck {
     }
     fn rule(&self) -> String {
         "each run: a seeded configuration (operators, predefined channels, default modes, max_joins, passwords) and a model-guided multi-client history of 25-70 steps \
-         (one command or transport fault per step, then a quiescence barrier); after every step every line on every connection is compared with the reference model. \
+         (one command or transport fault per step, then a quiescence barrier; in the thorough tier every second history has 70-160 steps, 5-9 connections and larger name pools; a fifth of the histories run over a fragmenting transport: capped reads/writes, lines arriving in two segments); after every step every line on every connection is compared with the reference model. \
          A case is distinct+nontrivial by (command, outcome cell reported by the model incl. ranks/mode flags involved, #users bucket, #channels bucket); pure no-ops are not counted."
             .into()
     }
@@ -231,11 +234,19 @@ impl Check for StepCheck {
             "discrepancies whose class belongs to another property end the run as abandoned(foreign), never as a violation".into(),
         ]
     }
-    fn gen(&self, run_seed: u64, _idx: u64, _tier: Tier) -> Trace {
+    fn gen(&self, run_seed: u64, idx: u64, tier: Tier) -> Trace {
         let mut r = Rng::new(run_seed);
         let cfg = base_config(&mut r.fork(7), self.id);
-        let prof = profile_for(self.id);
+        let mut prof = profile_for(self.id);
+        if tier == Tier::Thorough && idx % 2 == 1 {
+            // deeper bounds: longer histories, more connections, larger name pools
+            prof.steps = (70, 160);
+            prof.conns = (std::cmp::max(prof.conns.0, 5), std::cmp::max(prof.conns.1, 9));
+            prof.nick_pool += 4;
+            prof.chan_pool += 2;
+        }
         let mut g = Gen::new(r.next_u64(), &cfg, &prof);
+        g.frag = r.fork(11).chance(1, 5);
         g.setup();
         g.run();
         Trace { check: self.id.into(), seed: 0, run_seed, config: cfg, params: HashMap::new(), actions: g.actions }
